@@ -17,8 +17,9 @@
 From Coq Require Import List ZArith Bool.
 From ApiFu Require Import Base.Sexp Cost.CostModel Cost.CostSpec Cost.CostProofs.
 From ApiFu Require Val.Values Val.CoerceModel Val.CoerceSpec Val.CoerceProofs Relay.RelayModel.
-From ApiFu Require Import Cost.CostArgs Cost.CostArgsProofs Cost.CostFragments Cost.CostRelay Cost.CostTrace Cost.CostTraceProofs Cost.CostC04.
-From ApiFu Require Vld.Ast Vld.ValidatorModel Vld.Hyps Vld.ProofsCommon.
+From ApiFu Require Import Cost.CostArgs Cost.CostArgsProofs Cost.CostFragments Cost.CostRelay Cost.CostTrace Cost.CostTraceProofs Cost.CostC04Usage Cost.CostC04.
+From ApiFu Require Vld.ProofsTypeInfoValues.
+From ApiFu Require Vld.Ast Vld.ValidatorModel Vld.Hyps Vld.ProofsCommon Val.BridgeC04 Val.BridgeC04Proofs.
 Import ListNotations.
 Open Scope Z_scope.
 
@@ -464,6 +465,96 @@ Theorem C14_accepted_document_cost_calls_partial :
         (map (fun p => match p with (k, l) => (k, CoerceSpec.abs_lit vv l) end) (af_args (c_field c))) = Some (c_args c).
 Proof. exact accepted_document_cost_calls. Qed.
 
+
+(** ** round 5: two of the three implications of [document_bridge] discharged (through C05's
+    [C05_C04_accepts_implies_static_ok_partial] and the completed literal bridge
+    [C05_C04_coercion_bridge_partial]).  The premises are C04's own per-node checks, RUN on the
+    translation of each field selection of the request ([c04_node_silent]: validateArguments' check on
+    the node [ValidatorModel.args_node repaired] is silent, validateCoercion [c04_accepts] is silent on
+    every argument value at its declared type; [c04_defaults_silent]: the same for variable defaults),
+    over an environment C04 can express ([bridgeable]: no DateTime / LongInt; no Float or the leaf
+    hypothesis [float_leaves_agree]).  Then every call made during the walk is reference-coerced
+    with no further hypothesis on the request, and conforms given what validateVariables establishes.
+    STILL NOT PROVED (the remaining gap): (i) [field_usage_ok] from C04 — C04 now gives the errors of
+    validateVariables' visitor inside an annotated argument value as the recursion [usage_errs]
+    (C04_typeinfo_arguments / _list_items / _object_fields / C04_variable_usages_in_value) and the
+    two leaf functions agree (C05_C04_types_compatible, C05_C04_variable_usage), but [usage_errs] on
+    the translated value has not been related to C05's [usage_ok] through list items, object fields
+    and the scalar mark; (ii) C05's gap (b): that [validate_model = Done []] on the whole document
+    yields these per-node premises.  The check evaluates the per-node premises and [field_usage_ok]
+    on every case the real validator accepts. *)
+Theorem C14_c04_nodes_cost_calls_partial :
+  forall (C : Type) E dt (ops : list (aop C)) frs opname raw o skip_zero fuel dc ctx0 max,
+  BridgeC04.bridgeable E = true -> (BridgeC04Proofs.no_float E = true \/ BridgeC04Proofs.float_leaves_agree dt) ->
+  chosen_op C ops opname = Some o ->
+  CoerceSpec.env_ok E = true ->
+  (forall f, in_request C o frs f -> c04_node_silent C E f) -> c04_defaults_silent C E o ->
+  (forall f, in_request C o frs f ->
+             CoerceModel.has_dup (map fst (af_argdefs f)) = false /\
+             forall ad, In ad (af_argdefs f) -> CoerceSpec.default_ok E (snd ad) = true) ->
+  (forall def dflt, In def (ao_vardefs o) -> Values.vd_default def = Some dflt -> CoerceModel.lit_vars dflt = []) ->
+  (forall p, In p raw -> CoerceSpec.jval_ok (snd p) = true) ->
+  forall c, In c (snd (validate_cost_trace C E dt skip_zero fuel dc ctx0 ops frs opname raw max)) ->
+    (exists vv,
+       CoerceSpec.ref_variable_values E dt (ao_vardefs o) raw = Some vv /\
+       CoerceSpec.ref_argument_values E dt (af_argdefs (c_field c))
+         (map (fun p => match p with (k, l) => (k, CoerceSpec.abs_lit vv l) end) (af_args (c_field c))) = Some (c_args c)) /\
+    (CoerceModel.has_dup (map Values.vd_name (ao_vardefs o)) = false ->
+     (forall f, in_request C o frs f -> field_usage_ok C E (ao_vardefs o) f = true) ->
+     CoerceSpec.args_conform_b E (af_argdefs (c_field c)) (c_args c) = true).
+Proof. exact c04_nodes_cost_calls. Qed.
+
+
+(** ** round 5, continued: the variable-usage rule as well.  C04 gives the errors of
+    validateVariables' visitor inside an annotated argument value as the recursion
+    [ProofsTypeInfoValues.usage_errs] (C04_variable_usages_in_value).  On the translation of a literal
+    at its expected type, jointly with the values rule, its silence is C05's [usage_ok]: *)
+Theorem C14_usage_from_c04 : forall E dt defs vars',
+  Forall2 vardef_rel defs vars' ->
+  (forall d, In d defs -> CoerceModel.type_known E (Values.vd_type d) = true) ->
+  forall l t a ld,
+  CoerceModel.validate_coercion E dt l t a = true ->
+  nil_errs (ProofsTypeInfoValues.usage_errs true (BridgeC04.tr_env E) vars' false
+              (Some (BridgeC04.tr_sty t)) ld (BridgeC04.tr_lit l)) = true ->
+  CoerceModel.usage_ok CoerceModel.all_fixed E defs l (Some t) ld = true.
+Proof. exact usage_from_c04. Qed.
+
+(** ... so all three facts of [document_bridge] are derived from C04's per-node functions run on the
+    translation of the request's field selections: [c04_node_silent] (validateArguments' node check,
+    validateCoercion on every argument value), [c04_usage_silent] (validateVariables' visitor inside
+    every argument value, [vars'] = C04's annotated variable definitions of the chosen operation, e.g.
+    [ann_vardefs]), [c04_defaults_silent]; plus what C04's [vardefs_loop] reports otherwise (distinct
+    variable names, known types).  Every call made during the walk then sees conforming,
+    reference-coerced arguments.
+    STILL NOT PROVED — the one remaining gap: C05's gap (b), that [validate_model repaired = Done []]
+    on C04's encoding of the WHOLE document yields these per-node premises (NewTypeInfo annotates
+    each argument value of the translated document with its declared type — C04_typeinfo_arguments —
+    and [inspect] reaches exactly these nodes), and a translation of a whole multi-field request into
+    C04's document (C05's [tr_request_doc] is single-field; C04's schema keeps no default VALUES).
+    The check evaluates all per-node premises on every case the real validator accepts. *)
+Theorem C14_c04_nodes_cost_calls_all_partial :
+  forall (C : Type) E dt (ops : list (aop C)) frs opname raw o vars' skip_zero fuel dc ctx0 max,
+  BridgeC04.bridgeable E = true -> (BridgeC04Proofs.no_float E = true \/ BridgeC04Proofs.float_leaves_agree dt) ->
+  chosen_op C ops opname = Some o ->
+  CoerceSpec.env_ok E = true ->
+  (forall f, in_request C o frs f -> c04_node_silent C E f /\ c04_usage_silent C E vars' f) ->
+  c04_defaults_silent C E o ->
+  Forall2 vardef_rel (ao_vardefs o) vars' ->
+  CoerceModel.has_dup (map Values.vd_name (ao_vardefs o)) = false ->
+  (forall d, In d (ao_vardefs o) -> CoerceModel.type_known E (Values.vd_type d) = true) ->
+  (forall f, in_request C o frs f ->
+             CoerceModel.has_dup (map fst (af_argdefs f)) = false /\
+             forall ad, In ad (af_argdefs f) -> CoerceSpec.default_ok E (snd ad) = true) ->
+  (forall def dflt, In def (ao_vardefs o) -> Values.vd_default def = Some dflt -> CoerceModel.lit_vars dflt = []) ->
+  (forall p, In p raw -> CoerceSpec.jval_ok (snd p) = true) ->
+  forall c, In c (snd (validate_cost_trace C E dt skip_zero fuel dc ctx0 ops frs opname raw max)) ->
+    CoerceSpec.args_conform_b E (af_argdefs (c_field c)) (c_args c) = true /\
+    exists vv,
+      CoerceSpec.ref_variable_values E dt (ao_vardefs o) raw = Some vv /\
+      CoerceSpec.ref_argument_values E dt (af_argdefs (c_field c))
+        (map (fun p => match p with (k, l) => (k, CoerceSpec.abs_lit vv l) end) (af_args (c_field c))) = Some (c_args c).
+Proof. exact c04_nodes_cost_calls_all. Qed.
+
 Print Assumptions C14_checked_mul_spec.
 Print Assumptions C14_checked_add_spec.
 Print Assumptions C14_select_op_spec.
@@ -500,3 +591,6 @@ Print Assumptions C14_every_cost_call_is_coerced.
 Print Assumptions C14_every_cost_call_conforms.
 Print Assumptions C14_every_cost_call_is_reference_coerced.
 Print Assumptions C14_accepted_document_cost_calls_partial.
+Print Assumptions C14_c04_nodes_cost_calls_partial.
+Print Assumptions C14_usage_from_c04.
+Print Assumptions C14_c04_nodes_cost_calls_all_partial.
